@@ -361,11 +361,26 @@ pub fn c15(args: &[String]) {
         }
         drop(src);
     }
+    let mut watcher_threads_left = 0usize;
     if kind == "fs" {
+        // the watchers of the dropped caches: an event that names no asset (a dotted file) must end them too
+        for i in 0..5 {
+            let _ = std::fs::write(format!("{dir}/notes.v2.txt"), format!("x{i}"));
+            std::thread::sleep(std::time::Duration::from_millis(40));
+        }
+        std::thread::sleep(std::time::Duration::from_millis(300));
+        if let Ok(rd) = std::fs::read_dir("/proc/self/task") {
+            for e in rd.flatten() {
+                let comm = std::fs::read_to_string(e.path().join("comm")).unwrap_or_default();
+                if comm.trim().starts_with("notify-rs") {
+                    watcher_threads_left += 1;
+                }
+            }
+        }
         let _ = std::fs::remove_dir_all(&dir);
     }
     trace::write_ndjson(&out, &all).unwrap();
-    println!("REPORT {}", json!({"kind":kind,"rounds":results,"events":all.len()}));
+    println!("REPORT {}", json!({"kind":kind,"rounds":results,"events":all.len(),"watcher_threads_left":watcher_threads_left}));
 }
 
 // ---------------------------------------------------------------------------
